@@ -33,7 +33,10 @@ class LTLExplainer(LtlAstVisitor):
 
     def visitVariable(self, element, args):
         intervals = args[0]
-        self.explanations[element.name] = intervals
+        # a variable may occur several times in the specification: its
+        # explanation is the union of the intervals of all its occurrences
+        previous = self.explanations.get(element.name, [])
+        self.explanations[element.name] = interval_union([list(i) for i in previous] + [list(i) for i in intervals])
 
     def visitAddition(self, element, args):
         intervals = args[0]
